@@ -71,7 +71,7 @@ Theorem C18_exit_clean_fixed_protocol : forall n evs,
 Proof. exact exit_clean_fixed. Qed.
 Print Assumptions C18_exit_clean_fixed_protocol.
 
-(* Promptness (finding F5b): while the coordinator is blocked in select (holding the read lock
+(* Promptness of the tree BEFORE the fix (finding F5b, repaired by a fix: commit; kept as regression lemmas): while the coordinator is blocked in select (holding the read lock
    the handler needs) and no worker sends, no sequence of handler/main steps reaches the exit ... *)
 Theorem C18_prompt_refuted : forall evs,
   no_send evs = true -> pexit (prun false pblocked0 evs) = false.
@@ -88,3 +88,30 @@ Theorem C18_prompt_with_timeout : forall s,
   pexit (prun true s [PMain; PHandler; PMain; PHandler; PMain]) = true.
 Proof. exact prompt_with_timeout. Qed.
 Print Assumptions C18_prompt_with_timeout.
+
+(* PROMPTNESS for the protocol the CURRENT TREE implements ([current_select_has_timeout] and
+   [current_handler_flag_first] are regenerated from src/bin/s4.rs on every run; both are true since
+   the fix commit that bounds the wait on the channels and makes the handler signal the early exit
+   first): once the handler has taken its first step, ANY continuation of the schedule in which main
+   is given two steps — whatever the workers do, silent or not — has reached the exit. *)
+Theorem C18_current_tree_prompt : forall s evs1 evs2,
+  2 <= count_main evs2 ->
+  pexit (prun_gen current_select_has_timeout current_handler_flag_first s (evs1 ++ PHandler :: evs2)) = true.
+Proof. exact prompt_both_all_schedules. Qed.
+Print Assumptions C18_current_tree_prompt.
+
+Theorem C18_current_tree_prompt_example :
+  pexit (prun_gen current_select_has_timeout current_handler_flag_first pblocked0
+           [PWorkerSilent; PHandler; PWorkerSilent; PMain; PWorkerSilent; PMain]) = true
+  /\ count_main [PWorkerSilent; PMain; PWorkerSilent; PMain] = 2.
+Proof. exact prompt_both_example. Qed.
+Print Assumptions C18_current_tree_prompt_example.
+
+(* the bounded wait ALONE (the handler still asking for the lock first) does not give promptness:
+   main leaves its wait and re-enters it before the handler is scheduled, for ever — the starvation
+   observed on the tree before the fix *)
+Theorem C18_prompt_timeout_alone_starves : forall k,
+  pexit (prun_gen true false pblocked0 (concat (repeat [PMain; PMain; PHandler] k))) = false
+  /\ hdone (prun_gen true false pblocked0 (concat (repeat [PMain; PMain; PHandler] k))) = false.
+Proof. exact prompt_timeout_alone_starves. Qed.
+Print Assumptions C18_prompt_timeout_alone_starves.
